@@ -3,6 +3,7 @@
 set -e
 cd "$(dirname "$0")"
 export CARGO_NET_OFFLINE=true
+python3 tools/extract.py
 (cd lean && lake build)
 python3 - <<'PY'
 import sys
